@@ -665,6 +665,18 @@ def check_phase(ctx, repo):
     return n
 
 
+def expand(repo, cls, fn, defcls, expr):
+    """``expr`` of method ``fn`` with private helper methods of the receiver inlined and the method's locals substituted"""
+    selfname = astq.param_names(fn)[0] if astq.param_names(fn) else "self"
+    frame = {"module": defcls.module, "defcls": defcls, "self": selfname, "depth": 0, "fn": fn}
+    try:
+        v = NF(repo, cls).subst(expr, {}, frame)
+    except Undecided:
+        v = expr
+    v = astq.inline_locals(fn, v)
+    return rename_self(v, selfname) if selfname != "self" else v
+
+
 def same_series(repo, cls, fn, defcls):
     """the series whose index becomes the reference == the series seasonal_ is estimated from (after local inlining)"""
     selfname = astq.param_names(fn)[0]
@@ -683,7 +695,7 @@ def same_series(repo, cls, fn, defcls):
                     else:
                         return None
                 if astq.is_self_attr(t, selfname, "seasonal_"):
-                    v = astq.inline_locals(fn, n.value)
+                    v = expand(repo, cls, fn, defcls, n.value)
                     calls = [c for c in ast.walk(v) if isinstance(c, ast.Call) and dotted(c.func) and dotted(c.func).endswith("seasonal_decompose")]
                     for c in calls:
                         if c.args:
@@ -732,11 +744,28 @@ def check_alignment(ctx, repo):
                 return k.value
         return call.args[pos] if len(call.args) > pos else None
 
-    # (1) shape: np.resize(np.roll(self.seasonal_, shift), n)
-    if not (isinstance(val, ast.Call) and ext(val.func) == "numpy.resize"):
-        ctx.undecided("R4", tag + ":shape", "return value is not np.resize(...): %s" % ast.unparse(val)[:80], loc)
+    # (1) shape: np.resize(np.roll(self.seasonal_, shift), n)  -- rotate one period, then tile
+    #     np.roll(np.resize(self.seasonal_, n), shift) tiles first and rotates the *whole* length-n array: position i reads
+    #     seasonal_[((i - shift) mod n) mod sp], which equals seasonal_[(i - shift) mod sp] only if sp divides n
+    outer = ext(val.func) if isinstance(val, ast.Call) else None
+    if outer == "numpy.roll" and isinstance(arg(val, 0, "a"), ast.Call) and ext(arg(val, 0, "a").func) == "numpy.resize":
+        tiled = arg(val, 0, "a")
+        ctx.violation("R4", tag + ":composition",
+                      "%s rotates after tiling: np.roll(np.resize(seasonal_, n), s)[i] = seasonal_[((i - s) mod n) mod sp]; for the first s "
+                      "positions (i < s) this is seasonal_[(i - s + n) mod sp], not the required seasonal_[(i - s) mod sp] = seasonal_[(i + d) mod sp], "
+                      "unless sp divides n = len(y). Witness: sp = 4, n = 6, d = 1 (s = 3), i = 0 reads seasonal_[(0 - 3 + 6) mod 4] = seasonal_[3] "
+                      "instead of seasonal_[1]. The period must be rotated before it is tiled: np.resize(np.roll(seasonal_, s), n)" % tag, loc,
+                      witness={"value": ast.unparse(val), "index_map": "i -> ((i - s) mod n) mod sp", "required": "i -> (i + d) mod sp",
+                               "counterexample": {"sp": 4, "n": 6, "d": 1, "s": 3, "i": 0, "reads": 3, "expected": 1}})
+        inner = ast.Call(func=val.func, args=[arg(tiled, 0, "a"), arg(val, 1, "shift")], keywords=[])
+        n_expr = arg(tiled, 1, "new_shape")
+    elif outer == "numpy.resize":
+        inner, n_expr = arg(val, 0, "a"), arg(val, 1, "new_shape")
+        if isinstance(inner, ast.Call) and ext(inner.func) == "numpy.roll":
+            ctx.ok("R4", tag + ":composition", "one period is rotated, then tiled: resize(roll(seasonal_, s), n)[i] = seasonal_[(i - s) mod sp]", loc)
+    else:
+        ctx.undecided("R4", tag + ":shape", "return value is neither np.resize(np.roll(...)) nor np.roll(np.resize(...)): %s" % ast.unparse(val)[:80], loc)
         return
-    inner, n_expr = arg(val, 0, "a"), arg(val, 1, "new_shape")
     if not (isinstance(inner, ast.Call) and ext(inner.func) == "numpy.roll"):
         ctx.undecided("R4", tag + ":shape", "np.resize is not applied to np.roll(...)", loc)
         return
@@ -815,10 +844,10 @@ def check_alignment(ctx, repo):
             for attr, v, st in sorted(astq.self_attr_stores(f2), key=lambda t: t[2].lineno):
                 if attr != "seasonal_" or v is None or (isinstance(v, ast.Constant) and v.value is None):
                     continue
-                v2 = astq.inline_locals(f2, v)
+                v2 = expand(repo, c, f2, c, v)
                 ok = period_length_ok(repo, c.module, f2, v2)
                 ordinal += 1
-                ctx.check(ok, "R4", "%s.%s:period#%d" % (c.name, mn, ordinal), "seasonal_ holds exactly sp values",
+                ctx.check(ok, "R4", "%s.%s:period" % (c.name, mn), "seasonal_ holds exactly sp values (store %d)" % ordinal,
                           "seasonal_ = `%s` does not hold exactly self.sp values, so rolling it is not a rotation of one period"
                           % ast.unparse(v)[:80], ctx.loc(c.module, st))
 
@@ -958,6 +987,8 @@ class PosLabel:
 
 
 def check_positions(ctx, repo):
+    """Results are keyed by (public entry point, its data parameter, kind of access): private helpers on the way and the
+    number / order of the accesses do not enter the key (they are listed in the detail text)."""
     n = 0
     for rel in (HAMPEL, IMPUTE, ACF, BOX, DET, DES, ADAPT, COMPOSE):
         m = repo.module(rel)
@@ -967,17 +998,21 @@ def check_positions(ctx, repo):
             for mn, fn in c.methods.items():
                 ps = astq.param_names(fn, True)
                 if mn in ("transform", "inverse_transform", "fit", "update", "fit_transform") and ps:
-                    work.append((c.name + "." + mn, fn, c, {ps[0]}, set()))
-        # helpers receive DATA / POS through their call sites inside the module (two rounds are enough for today's depth)
-        done = {}
-        for _ in range(3):
+                    work.append((c.name + "." + mn, fn, c, {ps[0]: ps[0]}, set(), c.name + "." + mn))
+        groups = {}  # (entry, entry parameter, class of access) -> [(where, text)]
+        done = set()
+        for _ in range(4):
             new = []
-            for (q, fn, c, dps, pps) in work:
-                key = (id(fn), frozenset(dps), frozenset(pps))
+            for (q, fn, c, dmap, pps, entry) in work:
+                key = (id(fn), frozenset(dmap.items()), frozenset(pps), entry)
                 if key in done:
                     continue
-                pl = PosLabel(repo, m, fn, dps, pps)
-                done[key] = (q, fn, pl)
+                done.add(key)
+                pl = PosLabel(repo, m, fn, set(dmap), pps)
+                # local names bound to the same user series inherit the entry parameter
+                origin = dict(dmap)
+                for nm in pl.data:
+                    origin.setdefault(nm, sorted(set(dmap.values()))[0] if len(set(dmap.values())) == 1 else nm)
                 for call in astq.calls(fn):
                     tgt = None
                     if isinstance(call.func, ast.Name) and isinstance(m.defs.get(call.func.id), ast.FunctionDef):
@@ -991,42 +1026,60 @@ def check_positions(ctx, repo):
                     b = astq.bind_call(tgt, call, skip_self=skip)
                     if not b:
                         continue
-                    d2 = {p for p, e in b.items() if isinstance(e, ast.AST) and pl.kind(e) == "data"}
-                    # a column selected by label is still user data
-                    d2 |= {p for p, e in b.items() if isinstance(e, ast.Subscript) and pl.is_data(e.value) and pl.kind(e.slice) == "label"}
-                    p2 = {p for p, e in b.items() if isinstance(e, ast.AST) and pl.kind(e) == "pos"}
+                    d2 = {}
+                    for p_, e in b.items():
+                        if not isinstance(e, ast.AST):
+                            continue
+                        src = None
+                        if pl.kind(e) == "data":
+                            src = e
+                        elif isinstance(e, ast.Subscript) and pl.is_data(e.value) and pl.kind(e.slice) == "label":
+                            src = e.value  # a column selected by label is still user data
+                        if src is not None:
+                            while isinstance(src, ast.Call) and src.args:
+                                src = src.args[0]
+                            d2[p_] = origin.get(src.id, src.id) if isinstance(src, ast.Name) else sorted(set(dmap.values()))[0]
+                    p2 = {p_ for p_, e in b.items() if isinstance(e, ast.AST) and pl.kind(e) == "pos"}
                     if d2:
-                        new.append((q2, tgt, c if skip else None, d2, p2))
+                        new.append((q2, tgt, c if skip else None, d2, p2, entry))
+                for node in sorted((x for x in astq.walk_no_nested(fn) if isinstance(x, ast.Subscript)), key=lambda x: (x.lineno, x.col_offset)):
+                    base = node.value
+                    if isinstance(base, ast.Attribute) and base.attr in ("iloc", "loc", "iat", "at") and pl.is_data(base.value):
+                        via, series = base.attr, base.value
+                    elif pl.is_data(base):
+                        via, series = "[]", base
+                    else:
+                        continue
+                    idx = node.slice
+                    parts = idx.elts if isinstance(idx, ast.Tuple) else [idx]
+                    kinds = {pl.kind(p_) for p_ in parts} - {None}
+                    if not kinds:
+                        continue
+                    sv = series
+                    while isinstance(sv, ast.Call) and sv.args:
+                        sv = sv.args[0]
+                    param = origin.get(sv.id, sv.id) if isinstance(sv, ast.Name) else "?"
+                    kind = "positions" if "pos" in kinds else "labels"
+                    item = ("%s:%s in %s" % (rel, node.lineno, q), ast.unparse(node)[:60], ast.unparse(idx))
+                    lst = groups.setdefault((entry, param, "%s-through-%s" % (kind, via)), [])
+                    if item not in lst:
+                        lst.append(item)
             work = new
-        for key, (q, fn, pl) in sorted(done.items(), key=lambda kv: (kv[1][0], kv[1][1].lineno)):
-            k = 0
-            for node in sorted((x for x in astq.walk_no_nested(fn) if isinstance(x, ast.Subscript)), key=lambda x: (x.lineno, x.col_offset)):
-                base = node.value
-                via = None
-                if isinstance(base, ast.Attribute) and base.attr in ("iloc", "loc", "iat", "at") and pl.is_data(base.value):
-                    via, series = base.attr, base.value
-                elif pl.is_data(base):
-                    via, series = "[]", base
-                else:
-                    continue
-                idx = node.slice
-                parts = idx.elts if isinstance(idx, ast.Tuple) else [idx]
-                kinds = {pl.kind(p) for p in parts} - {None}
-                if not kinds:
-                    continue
-                n += 1
-                key2 = "%s:%s%s#%d" % (q, ast.unparse(series), "." + via if via != "[]" else "[]", k)
-                k += 1
-                loc = ctx.loc(repo.module(rel), node)
-                positional = via in ("iloc", "iat")
-                if "pos" in kinds and not positional:
-                    ctx.violation("R5", key2, "%s: integer positions `%s` are used as *labels* on the user's series (`%s`): with an integer index "
-                                  "that does not start at 0 this selects other rows or raises KeyError; positions must go through .iloc / numpy"
-                                  % (q, ast.unparse(idx), ast.unparse(node)[:60]), loc, witness={"index": ast.unparse(idx), "access": via})
-                elif "label" in kinds and positional:
-                    ctx.violation("R5", key2, "%s: labels `%s` are used as positions in `%s`" % (q, ast.unparse(idx), ast.unparse(node)[:60]), loc)
-                else:
-                    ctx.ok("R5", key2, "%s index through %s" % ("/".join(sorted(kinds)), via), loc)
+        for (entry, param, access), sites in sorted(groups.items()):
+            n += 1
+            key2 = "%s:%s:%s" % (entry, param, access)
+            where = "; ".join("`%s` (%s)" % (t, w) for w, t, _ in sites)
+            loc = sites[0][0].split(" in ")[0]
+            kind, via = access.split("-through-")
+            positional = via in ("iloc", "iat")
+            if kind == "positions" and not positional:
+                ctx.violation("R5", key2, "%s: integer positions are used as *labels* on the user's series `%s`: %s. With an integer index that "
+                              "does not start at 0 this selects other rows or raises KeyError; positions must go through .iloc / numpy"
+                              % (entry, param, where), loc, witness={"sites": where})
+            elif kind == "labels" and positional:
+                ctx.violation("R5", key2, "%s: labels are used as positions on the user's series `%s`: %s" % (entry, param, where), loc)
+            else:
+                ctx.ok("R5", key2, "%d access(es): %s" % (len(sites), where[:200]), loc)
     return n
 
 
@@ -1151,6 +1204,6 @@ def run(ctx):
     ctx.floor("R1", 32)  # 8 pairs x (signature, validation, auxiliary, operator) + pipeline order
     ctx.floor("R2", 7)   # Cosine, Detrender, Deseasonalizer, ConditionalDeseasonalizer, TabularToSeriesAdaptor, BoxCox, Log
     ctx.floor("R3", 6)   # fit / fit_transform / update of both deseasonalizers (+ same-series of the two fits)
-    ctx.floor("R4", 7)   # source, length, modulus, shift + three estimators of seasonal_
-    ctx.floor("R5", 12)  # 17 subscripts of user series with position / label provenance
+    ctx.floor("R4", 8)   # source, length, modulus, shift + three estimators of seasonal_
+    ctx.floor("R5", 4)   # (entry point, series, access kind) groups over 17 subscripts of user series  # 17 subscripts of user series with position / label provenance
     ctx.floor("R6", 3)   # two branches of the default + ColumnTransformer override
